@@ -584,8 +584,19 @@ func (v *View) checkC04(res *Result) {
 			}
 			if a.API == "ValidateTokenOrDemote" {
 				res.Obs["c04.ordemote_false"]++
-				if a.PostFlag && a.PostTok == a.PreToken && a.PreFlag {
-					res.viol("C04", "ordemote", "still-leader-after-ordemote-false", fmt.Sprintf("%s ValidateTokenOrDemote returned false at %v but the instance still reports leadership of term %s", a.Inst, a.RetVT, a.PreToken), a.Ret)
+				if a.PostFlag {
+					// leading at the return, in a term that was already running when the verdict was
+					// reached (the call's last read had not returned yet): that term was not demoted.
+					// (A term that began after it is a re-election following the demotion.)
+					verdictAt := a.Call
+					for _, c := range v.CallsL {
+						if c.Inst == a.Inst && c.Op == "Get" && c.Issue > a.Call && c.Return >= 0 && c.Return < a.Ret && c.Return > verdictAt {
+							verdictAt = c.Return
+						}
+					}
+					if t := v.termAt(a.Inst, a.Ret); t != nil && t.Up < verdictAt {
+						res.viol("C04", "ordemote", "still-leader-after-ordemote-false", fmt.Sprintf("%s ValidateTokenOrDemote returned false at %v but the instance still reports leadership (term %s, running since %v)", a.Inst, a.RetVT, t.Token, t.UpVT), a.Ret)
+					}
 				}
 				if a.PreFlag {
 					// the term it led at the call must have a demotion callback by the next quiescent point
